@@ -270,7 +270,11 @@ def vmdk_descriptor(p):
     lines += ['', '# The Disk Data Base', '#DDB', '', 'ddb.virtualHWVersion = "4"']
     if p.get('shuffle_seed') is not None:
         random.Random('vmdkshuffle-%s' % p['shuffle_seed']).shuffle(lines)
-    text = ('\n'.join(lines) + '\n')
+    if p.get('ctype_blanks'):
+        # blanks before / after the createType line (lines are stripped by the reader)
+        lines = [('  ' + l + ' \t') if l.lower().startswith('createtype') else l for l in lines]
+    eol = '\r\n' if p.get('crlf') else '\n'          # descriptors written by Windows tools end their lines with CR LF
+    text = (eol.join(lines) + eol)
     return text.encode('ascii'), ok
 
 
